@@ -6,6 +6,7 @@ import JenVerif.Gen.Reserved
 import JenVerif.Gen.StdHints
 import JenVerif.Gen.IsPrint
 import JenVerif.DriverSyn
+import JenVerif.GenNames
 /-
   Line-protocol driver (tie 2): interprets recipes with the model's semantics and prints the
   raw (unformatted) bytes of every render.  Core-only, so it is also built as a `lean_exe`.
@@ -310,6 +311,16 @@ def step (d : DState) (line : String) : Except String (DState × List String) :=
       else
         let r := renderS cfg f.st none c
         pure (d.setFile i { f with st := r.2 }, [s!"R {esc r.1}"])
+    | "gennames" => do
+      -- gennames <standard> <novendor> <prefix-filter> <n> (<std> <path> <name>)*n : model of getPackages
+      let (st, nv, pfx, ls) ← run (do
+        let st ← next; let nv ← next; let pfx ← nextStr
+        let n ← nextNat
+        let ls ← rep n (do let a ← next; let p ← nextStr; let nm ← nextStr; pure ({ standard := a == "true", path := p, name := nm } : GenNames.Line))
+        pure (st, nv, pfx, ls))
+      let table := GenNames.getPackages (fun p => Str.isPrefixOf pfx p) (st == "1") (nv == "1") ls []
+      let sorted := table.mergeSort (fun a b => Str.le a.1 b.1)
+      pure (d, [s!"T {sorted.length} " ++ String.intercalate " " (sorted.map fun e => s!"{esc e.1} {esc e.2}")])
     | "fx" => do
       -- fx <file|save> <noformat> <misuse> <raw> <fmtok> <fmtout> <writerok> <fsok>
       let (kind, nf, mis, raw, fok, fout, wok, fsok) ← run (do
